@@ -181,6 +181,8 @@ type fbScript struct {
 	Rows   int         // rows of the scripted result set (statements that name no sub-table)
 	RowLen int         // packet payload length of every row
 	Sub    map[int]int // rows per sub-table index (statements on tbl_ks_NNNN); absent = Rows
+	Multi  []int       // when set: a statement that names no sub-table is answered with len(Multi) result sets
+	//                    (SERVER_MORE_RESULTS_EXISTS on all but the last), result set i has Multi[i] rows tagged i
 }
 
 // fbSubTable: the sub-table index a statement addresses (tbl_ks_0002 -> 2), or -1
@@ -391,7 +393,19 @@ func (fb *fakeBackend) answerQuery(p *pktConn, bw *bufio.Writer, sql string) err
 				sc.Rows = n
 			}
 		}
-		if err := fb.writeResult(p, bw, sc, tag); err != nil {
+		if fbSubTable(sql) < 0 && len(sc.Multi) > 0 {
+			for i, n := range sc.Multi {
+				one := sc
+				one.Rows = n
+				status := uint16(fbStatusAutocommit)
+				if i < len(sc.Multi)-1 {
+					status |= 0x0008 // SERVER_MORE_RESULTS_EXISTS
+				}
+				if err := fb.writeResultStatus(p, bw, one, i, status); err != nil {
+					return err
+				}
+			}
+		} else if err := fb.writeResult(p, bw, sc, tag); err != nil {
 			return err
 		}
 		fb.mu.Lock()
@@ -425,13 +439,17 @@ func (fb *fakeBackend) answerQuery(p *pktConn, bw *bufio.Writer, sql string) err
 }
 
 func (fb *fakeBackend) writeResult(p *pktConn, bw *bufio.Writer, sc fbScript, tag int) error {
+	return fb.writeResultStatus(p, bw, sc, tag, fbStatusAutocommit)
+}
+
+func (fb *fakeBackend) writeResultStatus(p *pktConn, bw *bufio.Writer, sc fbScript, tag int, status uint16) error {
 	if err := p.writePacket(bw, []byte{1}); err != nil {
 		return err
 	}
 	if err := p.writePacket(bw, fbColDef("db_ks", "t", "v", 0xfb, 0xffffffff)); err != nil { // LONG_BLOB
 		return err
 	}
-	if err := p.writePacket(bw, fbEOF(fbStatusAutocommit)); err != nil {
+	if err := p.writePacket(bw, fbEOF(status)); err != nil {
 		return err
 	}
 	dl, err := pxDataLenForRowLen(sc.RowLen)
@@ -445,7 +463,7 @@ func (fb *fakeBackend) writeResult(p *pktConn, bw *bufio.Writer, sc fbScript, ta
 			return err
 		}
 	}
-	return p.writePacket(bw, fbEOF(fbStatusAutocommit))
+	return p.writePacket(bw, fbEOF(status))
 }
 
 // ---------------------------------------------------------------------------------------------
@@ -782,6 +800,7 @@ type pxResult struct {
 	Cols    int
 	Rows    int    // rows received before the terminator (or before the error)
 	Term    string // for result sets: "eof", "err", "closed", "timeout"
+	Status  uint16 // status flags of the terminating EOF (0x0008 = another result set follows)
 	Detail  string
 }
 
@@ -869,6 +888,9 @@ func (c *pxClient) readResponse(onRow func(row []byte) error) pxResult {
 		}
 		if d[0] == 0xfe && len(d) < 9 {
 			r.Term = "eof"
+			if len(d) >= 5 {
+				r.Status = binary.LittleEndian.Uint16(d[3:])
+			}
 			return r
 		}
 		if d[0] == 0xff {
@@ -884,6 +906,25 @@ func (c *pxClient) readResponse(onRow func(row []byte) error) pxResult {
 			if e := onRow(d); e != nil && r.Detail == "" {
 				r.Detail = e.Error()
 			}
+		}
+	}
+}
+
+// readResults reads an answer and every further result set announced by SERVER_MORE_RESULTS_EXISTS; rows are summed,
+// the outcome is that of the last answer read; nsets = result sets received completely.
+func (c *pxClient) readResults(onRow func(row []byte) error) (pxResult, int) {
+	total := 0
+	nsets := 0
+	for {
+		r := c.readResponse(onRow)
+		total += r.Rows
+		r.Rows = total
+		if r.Kind != "resultset" || r.Term != "eof" {
+			return r, nsets
+		}
+		nsets++
+		if r.Status&0x0008 == 0 {
+			return r, nsets
 		}
 	}
 }
